@@ -468,7 +468,7 @@ func (s *Span) Handle(cx *layer4.Connection, next layer4.Handler) error {
 		// real sockets: the harness may have started tracking this connection only after the handler began
 		rec = recOf(cx)
 		if rec == nil && os.Getenv("VERIF_DEBUG_SPAN") != "" {
-			fmt.Fprintf(os.Stderr, "SPAN-EXIT-UNTRACKED id=%q name=%s t=%v err=%v\n", ConnID(cx), s.Name, vnet.Now(), err)
+			fmt.Fprintf(os.Stdout, "SPAN-EXIT-UNTRACKED id=%q name=%s t=%v err=%v\n", ConnID(cx), s.Name, vnet.Now(), err)
 		}
 	}
 	rec.Add(Event{Kind: "exit", Who: s.Name, S: errString(err)})
@@ -669,7 +669,17 @@ func Quiet(dir string) {
 			cfg = `{"admin":{"disabled":true,"config":{"persist":false}},"logging":{"logs":{"default":{"level":"DEBUG"}}}}`
 		}
 		if err := caddy.Load([]byte(cfg), true); err != nil {
-			fmt.Fprintln(os.Stderr, "hmods.Quiet: caddy.Load:", err)
+			fmt.Println("hmods.Quiet: caddy.Load:", err)
+		}
+		// Modules provisioned through a bare caddy.Context log to a zap development logger (debug level, "stderr"),
+		// which the config above does not reach: gigabytes of per-read debug lines in a thorough run. The level stays
+		// as it is (the debug branches of the repository code keep running); only the sink changes: the Go-level
+		// os.Stderr now points at /dev/null. Panics, fatal errors and race reports are written to file descriptor 2
+		// (or GORACE log_path) by the runtime and still reach the child's output file.
+		if os.Getenv("VERIF_DEBUG") == "" {
+			if f, err := os.OpenFile(os.DevNull, os.O_WRONLY, 0); err == nil {
+				os.Stderr = f
+			}
 		}
 	})
 }
